@@ -121,6 +121,9 @@ class Session:
         seed = plan.get("seed", 0)
         self.world = World(seed=seed, epoch=tuple(cfg.get("epoch", (2024, 5, 17, 10, 20, 30, 123456))),
                            msg_id_start=cfg.get("msg_id_start", 0), max_iterations=max_iterations)
+        if cfg.get("tz"):
+            self.world.clock.tz = dict(cfg["tz"])
+            self.world.fire("host_zone_with_dst_change")
         self.version = cfg.get("version", 2)
         self.device_id = cfg.get("device_id", 0x1122334455)
         self.token = bytes.fromhex(cfg["token"]) if cfg.get("token") else det_bytes(f"tok{seed}", 64)
